@@ -121,84 +121,64 @@ def check_calls_in(repo, rep, func, where, local_defs=None):
     return n_checked
 
 
-def _expand_ref_decision(ex):
-    """Compare the decision table of CellRange.expand_ref with the confirmed one over all truth assignments."""
+def _expand_ref_decision(ex, repo=None):
+    """Decision table of CellRange.expand_ref, read off the summarised function (funsum): in every scenario of
+    (kind and scope of the name, no_prefix, absolute, same table, same sheet, target table name unique) the text returned
+    is the reference alone (P), ``table::ref`` (T) or ``sheet::table::ref`` (S) as the confirmed table prescribes, with
+    the names of the *target* table and sheet, and the reference part is the same text in all three."""
+    import copy
     import itertools
 
-    from ..symexec import body_paths, bool_atoms, bool_eval
-    ATOMS = {"no_prefix": "A", "is_document_unique": "B", "self.from_table_id==self.to_table_id": "C", "self.from_sheet_id==self.to_sheet_id": "D",
-             "is_sheet_unique": "E", "is_table_unique": "F", "is_abs": "G"}
+    from ..funsum import Asg, Summarizer, _Simp, _parts, decide
+    from ..symexec import _strip
+    params = [a.arg for a in ex.args.args]
+    ref, is_abs, no_prefix = params[1], params[2], params[3]
+    paths = Summarizer().summarize(ex)
+    TABLE = "self.model.table_name(self.to_table_id)"
+    SHEET = "self.model.sheet_name(self.to_sheet_id)"
+    scopes = {"DOCUMENT": 1, "SHEET": 2, "TABLE": 3, "NONE": 4}
+    n = 0
 
-    def canon(a):
-        t = a.replace(" ", "")
-        if t == "self.to_table_id==self.from_table_id":
-            t = "self.from_table_id==self.to_table_id"
-        if t == "self.to_sheet_id==self.from_sheet_id":
-            t = "self.from_sheet_id==self.to_sheet_id"
-        return t
+    def classify(r):
+        from ..funsum import canon_text
+        ps = _parts(r) if isinstance(r, (ast.JoinedStr, ast.BinOp)) else [("e", canon_text(r))]
+        if len(ps) >= 4 and ps[0] == ("e", SHEET) and ps[1][0] == "s" and ps[1][1] == "::" and ps[2] == ("e", TABLE) and ps[3][0] == "s" and ps[3][1].startswith("::"):
+            return "S", [("s", ps[3][1][2:])] + ps[4:] if ps[3][1] != "::" else ps[4:]
+        if len(ps) >= 2 and ps[0] == ("e", TABLE) and ps[1][0] == "s" and ps[1][1].startswith("::"):
+            return "T", ([("s", ps[1][1][2:])] + ps[2:]) if ps[1][1] != "::" else ps[2:]
+        if any(k == "e" and t in (TABLE, SHEET) for k, t in ps):
+            return "?", ps
+        return "P", ps
 
-    def kind(e, asg):
-        if isinstance(e, ast.IfExp):
-            r = bool_eval(e.test, asg)
-            if r is None:
-                return "?"
-            return kind(e.body if r else e.orelse, asg)
-        if isinstance(e, ast.Name) and e.id == "ref_str":
-            return "P"
-        if isinstance(e, ast.JoinedStr):
-            names = [U(v.value) for v in e.values if isinstance(v, ast.FormattedValue)]
-            lits = "".join(v.value for v in e.values if isinstance(v, ast.Constant))
-            if names == ["table_name", "ref_str"] and lits == "::":
-                return "T"
-            if names == ["sheet_name", "table_name", "ref_str"] and lits == "::::":
-                return "S"
-        return "?"
-
-    # the table uniqueness flag is widened by the name table before the last decisions
-    widened = any(isinstance(n, ast.AugAssign) and U(n.target) == "is_table_unique" and isinstance(n.op, ast.BitOr) and "table_name_unique[table_name]" in U(n.value) for n in body_walk(ex)) \
-        or any(isinstance(n, ast.Assign) and U(n.targets[0]) == "is_table_unique" and "table_name_unique[table_name]" in U(n.value) and "is_table_unique" in U(n.value) for n in body_walk(ex))
-    tn = [n for n in body_walk(ex) if isinstance(n, ast.Assign) and U(n.targets[0]) == "table_name"]
-    sn = [n for n in body_walk(ex) if isinstance(n, ast.Assign) and U(n.targets[0]) == "sheet_name"]
-    if not (widened and tn and sn and U(tn[0].value).replace(" ", "") == "self.model.table_name(self.to_table_id)" and U(sn[0].value).replace(" ", "") == "self.model.sheet_name(self.to_sheet_id)"):
-        return False, "table/sheet names are not those of the target table, or the table uniqueness flag is not widened by table_name_unique"
-    try:
-        paths = [(c, st, e) for c, st, e in body_paths(ex.body) if e == "return"]
-    except ValueError as e:
-        raise AnalysisError(f"expand_ref: {e}") from e
-    used = set()
-    for c, _st, _e in paths:
-        for t, _o in c:
-            used |= {canon(a) for a in bool_atoms(t)}
-    # tests on the text being printed (quoting) do not take part in the prefix decision
-    free = sorted(a for a in used if a not in ATOMS)
-    names = sorted(ATOMS)
-    for vals in itertools.product([False, True], repeat=len(names)):
-        asg0 = dict(zip(names, vals))
-        A, B, C, D, E, F, G = (asg0[k] for k in ("no_prefix", "is_document_unique", "self.from_table_id==self.to_table_id", "self.from_sheet_id==self.to_sheet_id",
-                                                     "is_sheet_unique", "is_table_unique", "is_abs"))
+    for kind_, A, G, C, D, NU in itertools.product(["str", "DOCUMENT", "SHEET", "TABLE", "NONE"], [False, True], [False, True], [False, True], [False, True], [False, True]):
+        sc = {f"isinstance({ref}, ScopedNameRef)": kind_ != "str", no_prefix: A, is_abs: G,
+              "self.from_table_id == self.to_table_id": C, "self.to_table_id == self.from_table_id": C,
+              "self.from_sheet_id == self.to_sheet_id": D, "self.to_sheet_id == self.from_sheet_id": D,
+              f"self.table_name_unique[{TABLE}]": NU}
+        for k, v in scopes.items():
+            sc[f"RefScope.{k}"] = v
+        if kind_ != "str":
+            sc[f"{ref}.scope"] = scopes[kind_]
+        B, E = kind_ == "DOCUMENT", kind_ == "SHEET"
+        F = kind_ == "TABLE" or NU
         want = "P" if (A or B or C) else (("T" if G else "P") if (D and E) else ("T" if (D or F) else "S"))
-        for fvals in itertools.product([False, True], repeat=min(len(free), 3)):
-            asg = dict(asg0)
-            asg.update(zip(free, fvals))
-            # atoms are looked up by their canonical text
-            class _A(dict):
-                def get(self, k, d=None):
-                    return dict.get(self, canon(k), d)
-
-                def __contains__(self, k):
-                    return dict.__contains__(self, canon(k))
-
-                def __getitem__(self, k):
-                    return dict.__getitem__(self, canon(k))
-            asg = _A(asg)
-            got = None
-            for c, steps, _e in paths:
-                if all(bool_eval(t, asg) == o for t, o in c):
-                    got = kind(steps[-1].value, asg)
-                    break
-            if got != want:
-                return False, f"with {dict(asg0)} the reference is printed as {got} (P=plain, T=table::, S=sheet::table::) instead of {want}"
-    return True, ""
+        outs = decide(paths, sc, limit=6)
+        # the reference text itself: what is returned when no prefix is wanted, under the same quoting facts
+        plain = {tuple(sorted(fx.items())): classify(_Simp(Asg({**sc, no_prefix: True}, fx)).visit(copy.deepcopy(_strip(p.ret))))[1]
+                 for fx, _k, _g, p in decide(paths, {**sc, no_prefix: True}, limit=6)} if not A else None
+        for fx, kind2, _got, p in outs:
+            n += 1
+            r = _Simp(Asg(sc, fx)).visit(copy.deepcopy(_strip(p.ret)))
+            got, rest = classify(r)
+            where = (f"name kind/scope {kind_}, no_prefix={A}, absolute={G}, same table={C}, same sheet={D}, target table name unique={NU}")
+            if kind2 != "return" or got != want:
+                return False, f"with {where} the reference is printed as {got} (P=plain, T=table::, S=sheet::table::) instead of {want}", n
+            if plain is not None:
+                key = tuple(sorted(fx.items()))
+                cands = [v for k_, v in plain.items() if set(k_) <= set(key) or set(key) <= set(k_)]
+                if cands and rest not in cands:
+                    return False, f"with {where} the reference part of the text differs from the unprefixed reference", n
+    return True, "", n
 
 
 def check_col_to_name(repo, rep):
@@ -252,49 +232,108 @@ def check_col_to_name(repo, rep):
            key="C09.R3@xl_col_to_name:digits")
 
 
+def _range_edges(repo, rep, ntr, inner):
+    """The four edges (row/column x begin/end) of the CellRange that node_to_ref builds for a colon-tract node.
+
+    The function is summarised with its resolve helpers inlined (nested, module-level or already written in place); every
+    stored field gets a distinct tracer value, and the keyword value of each edge is evaluated for every combination of
+    (edge flagged absolute, relative list empty, stored absolute value is the open-edge sentinel).  Expected:
+    absolute -> the stored absolute bound of that axis (begin: range_begin, end: range_end()); relative list empty and
+    the absolute bound is the sentinel -> open edge; otherwise host row/column + the stored relative bound; an edge whose
+    value is the axis' sentinel is passed as None."""
+    import itertools
+
+    from ..funsum import Summarizer, cval, _UNKNOWN
+    params = [a.arg for a in ntr.args.args]
+    host_row, host_col, node = params[2], params[3], params[4]
+    helpers = dict(inner)
+    for n in repo.tree("model.py").body:
+        if isinstance(n, ast.FunctionDef) and n.name in ("resolve_range", "resolve_range_end", "range_begin") and n.name not in helpers:
+            helpers[n.name] = n
+    paths = Summarizer(inline=helpers).summarize(ntr)
+    tract = [p for p in paths if p.kind == "return" and isinstance(p.ret, ast.Call) and call_name(p.ret) == "CellRange"
+             and any(U(c).replace(" ", "").replace('"', "'") == f"{node}.HasField('AST_colon_tract')" and o for c, o in p.conds)]
+    if not tract:
+        raise AnalysisError("node_to_ref: the CellRange built for a colon-tract node was not found")
+    n_ob = 0
+    EDGES = {"row_start": ("row", "begin", host_row, ROW_SENTINEL), "row_end": ("row", "end", host_row, ROW_SENTINEL),
+             "col_start": ("column", "begin", host_col, COL_SENTINEL), "col_end": ("column", "end", host_col, COL_SENTINEL)}
+    tracer = {}
+    k = 100
+    for axis in ("row", "column"):
+        for lst in ("absolute", "relative"):
+            base = f"{node}.AST_colon_tract.{lst}_{axis}[0]"
+            k += 50
+            tracer[f"{base}.range_begin"] = k + 1
+            tracer[f"range_end({base})"] = k + 3
+    HOSTS = {host_row: 10000, host_col: 20000}
+    for p in tract:
+        kws = {kw.arg: kw.value for kw in p.ret.keywords}
+        for edge, (axis, end, host, sent) in EDGES.items():
+            n_ob += 1
+            if edge not in kws:
+                rep.ob("C09.R2", p.node, f"node_to_ref: {edge} of a range reference", False, f"CellRange is built without {edge}", key=f"C09.R2@node_to_ref:edge:{edge}")
+                continue
+            abs_t = f"{node}.AST_colon_tract.absolute_{axis}[0]"
+            rel_t = f"{node}.AST_colon_tract.relative_{axis}[0]"
+            abs_key = f"{abs_t}.range_begin" if end == "begin" else f"range_end({abs_t})"
+            rel_key = f"{rel_t}.range_begin" if end == "begin" else f"range_end({rel_t})"
+            flag = f"{node}.AST_sticky_bits.{end}_{axis}_is_absolute"
+            bad = []
+            other = COL_SENTINEL if sent == ROW_SENTINEL else ROW_SENTINEL
+            for F, empty, M in itertools.product([True, False], [True, False], [True, False, "other"]):
+                sc = {**tracer, **HOSTS}
+                for ax2 in ("row", "column"):
+                    for e2 in ("begin", "end"):
+                        sc[f"{node}.AST_sticky_bits.{e2}_{ax2}_is_absolute"] = False
+                    sc[f"{node}.AST_colon_tract.relative_{ax2}"] = (1,)
+                sc[flag] = F
+                sc[f"{node}.AST_colon_tract.relative_{axis}"] = () if empty else (1,)
+                if M is True:
+                    sc[abs_key] = sent
+                elif M == "other":
+                    sc[abs_key] = other  # a legitimate index that happens to equal the other axis' marker
+                got = cval(kws[edge], sc)
+                if F:
+                    want = None if M is True else sc[abs_key]
+                elif empty and M is True:
+                    want = None
+                else:
+                    want = HOSTS[host] + tracer[rel_key]
+                if got is _UNKNOWN or got != want:
+                    inv = {v: k_ for k_, v in tracer.items()}
+
+                    def show(x):
+                        if x is _UNKNOWN:
+                            return "a value the scenario does not determine"
+                        if x is None:
+                            return "None (open edge)"
+                        for hn, hv in HOSTS.items():
+                            if isinstance(x, int) and x - hv in inv:
+                                return f"{hn} + {inv[x - hv]}"
+                        return inv.get(x, hex(x) if isinstance(x, int) else repr(x))
+                    bad.append(f"flag absolute={F}, relative list empty={empty}, stored bound is the sentinel={M}: {show(got)} instead of {show(want)}")
+            rep.ob("C09.R2", p.node, f"node_to_ref: {edge} = stored {axis} {end} if flagged absolute, open edge for the sentinel, else {host} + relative {end} (12 cases)",
+                   not bad, "" if not bad else bad[0] + (f" (and {len(bad) - 1} more)" if len(bad) > 1 else ""), key=f"C09.R2@node_to_ref:edge:{edge}")
+    # absolute flags passed on: each edge's flag under its own keyword
+    for p in tract[:1]:
+        kws = {kw.arg: U(kw.value) for kw in p.ret.keywords}
+        for kw_name, (axis, end) in {"row_start_is_abs": ("row", "begin"), "row_end_is_abs": ("row", "end"), "col_start_is_abs": ("column", "begin"), "col_end_is_abs": ("column", "end")}.items():
+            n_ob += 1
+            want = f"{node}.AST_sticky_bits.{end}_{axis}_is_absolute"
+            rep.ob("C09.R1", p.node, f"node_to_ref: {kw_name} is the node's {end} {axis} flag", kws.get(kw_name) == want,
+                   "" if kws.get(kw_name) == want else f"found `{kws.get(kw_name)}`", key=f"C09.R1@node_to_ref:flag:{kw_name}")
+    return n_ob
+
+
 def run(repo, rep, tier):
     ntr = repo.func("model.py", "_NumbersModel.node_to_ref")
     inner = {n.name: n for n in ntr.body if isinstance(n, ast.FunctionDef)}
-    if "resolve_range" not in inner or "resolve_range_end" not in inner:
-        raise AnalysisError("node_to_ref: resolve_range / resolve_range_end helpers not found")
     total = 0
-    # ---- R1 tag consistency
+    # ---- R1 tag consistency of the bindings that are spelled out
     total += check_calls_in(repo, rep, ntr, "node_to_ref", inner)
-    # results of the four resolve calls are bound to names of the same axis/end, through the matching helper
-    for n in body_walk(ntr):
-        if isinstance(n, ast.Assign) and isinstance(n.value, ast.Call) and call_name(n.value) in inner:
-            tgt = U(n.targets[0])
-            ta, te, _ = name_tags(tgt)
-            helper = call_name(n.value)
-            want_helper = "resolve_range_end" if te == {"END"} else "resolve_range"
-            okh = helper == want_helper
-            rep.ob("C09.R1", n, f"node_to_ref: {tgt} computed by {helper}", okh,
-                   "" if okh else f"{tgt} must be computed by {want_helper}: begin and end points are swapped", key=f"C09.R1@node_to_ref:helper:{tgt}")
-            for a in n.value.args:
-                aa, ae, _ = expr_tags(a)
-                if aa:
-                    ok = aa == ta
-                    rep.ob("C09.R1", n, f"node_to_ref: {tgt} <- {U(a)[:60]}", ok, "" if ok else f"{sorted(aa)} data used for a {sorted(ta)} coordinate",
-                           key=f"C09.R1@node_to_ref:{tgt}:{U(a)[:40]}")
-                    total += 1
-                if ae and len(ae) == 1 and te:
-                    ok = ae == te
-                    rep.ob("C09.R1", n, f"node_to_ref: {tgt} end-tag of {U(a)[:60]}", ok, "" if ok else f"{sorted(ae)} flag used for the {sorted(te)} point",
-                           key=f"C09.R1@node_to_ref:{tgt}:end:{U(a)[:40]}")
-                    total += 1
-    # helpers: begin uses range_begin, end uses range_end(), open-end sentinel test, host offset added to relative
-    for hname, h in inner.items():
-        s = U(h).replace(" ", "")
-        if hname == "resolve_range":
-            ok = "ifis_absolute:returnabsolute_list[0].range_begin" in s.replace("\n", "") and "returnoffset+relative_list[0].range_begin" in s \
-                and "ifnotrelative_listandabsolute_list[0].range_begin==max_val:returnmax_val" in s.replace("\n", "")
-        else:
-            ok = "ifis_absolute:returnrange_end(absolute_list[0])" in s.replace("\n", "") and "returnoffset+range_end(relative_list[0])" in s \
-                and "ifnotrelative_listandrange_end(absolute_list[0])==max_val:returnmax_val" in s.replace("\n", "")
-        rep.ob("C09.R2", h, f"{hname}: absolute -> stored, open end -> sentinel, else host + stored", ok,
-               "" if ok else "the relative/absolute resolution pattern is altered", key=f"C09.R2@{hname}")
-        ok = [a.arg for a in h.args.args] == ["is_absolute", "absolute_list", "relative_list", "offset", "max_val"]
-        rep.ob("C09.R2", h, f"{hname} parameter order", ok, "", key=f"C09.R2@{hname}:params")
+    # ---- R1/R2 the four edges of a range reference, by tracer values through the summarised function
+    total += _range_edges(repo, rep, ntr, inner)
     re_f = repo.func("model.py", "range_end")
     s = U(re_f).replace(" ", "").replace("\n", "")
     ok = "ifobj.HasField('range_end'):returnobj.range_endreturnobj.range_begin" in s
@@ -308,16 +347,6 @@ def run(repo, rep, tier):
             ok = U(v.test) == f"node.{fld}.absolute" and U(v.body) == f"node.{fld}.{sub}" and U(v.orelse).replace(" ", "") in (f"{host}+node.{fld}.{sub}", f"node.{fld}.{sub}+{host}")
         rep.ob("C09.R2", asg[0] if asg else ntr, f"node_to_ref: single-cell {axis} = stored if absolute else host + stored", ok,
                "" if ok else f"found `{U(asg[0].value) if asg else None}`", key=f"C09.R2@node_to_ref:cell:{axis}")
-    # sentinel -> None mapping keeps axis
-    for kw_name, var, sent in (("row_start", "row_begin", ROW_SENTINEL), ("row_end", "row_end", ROW_SENTINEL), ("col_start", "col_begin", COL_SENTINEL), ("col_end", "col_end", COL_SENTINEL)):
-        found = False
-        for n in ast.walk(ntr):
-            if isinstance(n, ast.keyword) and n.arg == kw_name and isinstance(n.value, ast.IfExp):
-                v = n.value
-                t = v.test
-                found = isinstance(t, ast.Compare) and U(t.left) == var and try_const(t.comparators[0]) == sent and U(v.orelse) == var and U(v.body) == "None"
-        rep.ob("C09.R1", ntr, f"node_to_ref: {kw_name} = None if {var} == {sent:#x} else {var}", found, "" if found else "open-end sentinel of the wrong axis or variable",
-               key=f"C09.R1@node_to_ref:sentinel:{kw_name}")
     # the writer's sentinels agree
     fs = U(repo.func("formula.py", "Formula.range_archive"))
     ok = ("'absolute_column': [{'range_begin': 32767}]" in fs) and ("'absolute_row': [{'range_begin': 2147483647}]" in fs)
@@ -446,7 +475,7 @@ def run(repo, rep, tier):
     rep.ob("C09.R4", ex, "expand_ref refreshes the name cache before deciding the prefix", ok, "", key="C09.R4@expand_ref:refresh")
     # prefix selection: the decision table of expand_ref (which qualification is returned under which facts), read from
     # the paths of the function, equals the confirmed table
-    ok, detail = _expand_ref_decision(ex)
+    ok, detail, n_dec = _expand_ref_decision(ex)
     rep.ob("C09.R4", ex, "expand_ref qualifies with the *target* table/sheet names: none (same table), table, or sheet::table", ok,
            "" if ok else detail, key="C09.R4@expand_ref:prefix")
     # the absolute marker belongs to the name: it is added before the name is quoted ('$10%', never $'10%')
@@ -478,10 +507,10 @@ def run(repo, rep, tier):
 VARIANTS = [
     M("row-abs-from-column-flag", "model.py", "row_start_is_abs=node.AST_sticky_bits.begin_row_is_absolute,", "row_start_is_abs=node.AST_sticky_bits.begin_column_is_absolute,", "C09.R1"),
     M("end-from-begin-flag", "model.py", "                node.AST_sticky_bits.end_row_is_absolute,\n                node.AST_colon_tract.absolute_row,\n                node.AST_colon_tract.relative_row,\n                row,",
-      "                node.AST_sticky_bits.begin_row_is_absolute,\n                node.AST_colon_tract.absolute_row,\n                node.AST_colon_tract.relative_row,\n                row,", "C09.R1"),
-    M("col-host-row", "model.py", "                node.AST_colon_tract.relative_column,\n                col,\n                0x7FFF,\n            )\n\n            col_end", "                node.AST_colon_tract.relative_column,\n                row,\n                0x7FFF,\n            )\n\n            col_end", "C09.R1"),
-    M("row-sentinel-short", "model.py", "row_end=None if row_end == 0x7FFFFFFF else row_end,", "row_end=None if row_end == 0x7FFF else row_end,", "C09.R1"),
-    M("cellrange-swapped-ends", "model.py", "                row_end=None if row_end == 0x7FFFFFFF else row_end,\n                col_start=None if col_begin == 0x7FFF else col_begin,", "                row_end=None if row_begin == 0x7FFFFFFF else row_begin,\n                col_start=None if col_begin == 0x7FFF else col_begin,", "C09.R1"),
+      "                node.AST_sticky_bits.begin_row_is_absolute,\n                node.AST_colon_tract.absolute_row,\n                node.AST_colon_tract.relative_row,\n                row,", "C09.R"),
+    M("col-host-row", "model.py", "                node.AST_colon_tract.relative_column,\n                col,\n                0x7FFF,\n            )\n\n            col_end", "                node.AST_colon_tract.relative_column,\n                row,\n                0x7FFF,\n            )\n\n            col_end", "C09.R"),
+    M("row-sentinel-short", "model.py", "row_end=None if row_end == 0x7FFFFFFF else row_end,", "row_end=None if row_end == 0x7FFF else row_end,", "C09.R"),
+    M("cellrange-swapped-ends", "model.py", "                row_end=None if row_end == 0x7FFFFFFF else row_end,\n                col_start=None if col_begin == 0x7FFF else col_begin,", "                row_end=None if row_begin == 0x7FFFFFFF else row_begin,\n                col_start=None if col_begin == 0x7FFF else col_begin,", "C09.R"),
     M("cell-relative-no-host", "model.py", "row = node.AST_row.row if node.AST_row.absolute else row + node.AST_row.row", "row = node.AST_row.row if node.AST_row.absolute else col + node.AST_row.row", "C09.R2"),
     M("format-cell-abs-swapped", "xrefs.py", "                        row_end,\n                        col_end,\n                        row_abs=self.row_end_is_abs,\n                        col_abs=self.col_end_is_abs,", "                        row_end,\n                        col_end,\n                        row_abs=self.col_end_is_abs,\n                        col_abs=self.row_end_is_abs,", "C09.R"),
     M("col-name-divmod-no-borrow", "xrefs.py", "        col = int((col - 1) / 26)", "        col = col // 26", "C09.R3"),
